@@ -36,7 +36,19 @@ class Work:
     """A scratch directory under /dev/shm, removed on exit."""
 
     def __init__(self, tag):
-        self.dir = tempfile.mkdtemp(prefix="verif-%s-" % tag, dir=SHM)
+        # scratch directories carry the pid of their owner: what a killed run (timeout, kill) left behind is removed by the next one
+        for d in glob.glob(os.path.join(SHM, "verif-*-p[0-9]*-*")) + glob.glob(os.path.join(SHM, "verif-build-*")):
+            try:
+                if os.path.basename(d).startswith("verif-build-"):
+                    stale = time.time() - os.path.getmtime(d) > 3600
+                else:
+                    pid = int(re.search(r"-p(\d+)-", os.path.basename(d)).group(1))
+                    stale = not os.path.exists("/proc/%d" % pid)
+                if stale:
+                    shutil.rmtree(d, ignore_errors=True)
+            except (OSError, AttributeError, ValueError):
+                pass
+        self.dir = tempfile.mkdtemp(prefix="verif-%s-p%d-" % (tag, os.getpid()), dir=SHM)
 
     def path(self, *a):
         return os.path.join(self.dir, *a)
@@ -242,7 +254,7 @@ def write_ndjson(path, items):
             f.write(json.dumps(it, separators=(",", ":")) + "\n")
 
 
-def run_harness(binp, tests, wdir, shards=NCPU, timeout=900, per_test_timeout="60s", env=None, max_hangs=4):
+def run_harness(binp, tests, wdir, shards=NCPU, timeout=900, per_test_timeout="180s", env=None, max_hangs=4):
     """Run tests through the harness in parallel shards.  Returns a list of
     (tests_of_shard, trace_path).  A dead process is restarted after the test
     that killed it; that test gets a synthetic `panic` event (process death is
